@@ -135,7 +135,8 @@ def gen_mesh(rng, tier, nd=None, cap=10 ** 6, kspace=False):
     else:
         dims = rng.choice(DIMSETS[nd][:3] + [DIMSETS[nd][0]] * 3)
         units = [rng.choice(["m", "m", "nm", "s", "", "(m" + KSUF]) for _ in range(nd)]
-    return dict(p1=[S(x) for x in p1], p2=[S(x) for x in p2], n=n, dims=dims, units=units, regime=regime)
+    return dict(p1=[S(x) for x in p1], p2=[S(x) for x in p2], n=n, dims=dims, units=units, regime=regime,
+                seq=rng.choice(["list", "tuple", "ndarray"]))
 
 
 def kmesh_of(rng, tier, rfft, nd=None):
@@ -161,7 +162,8 @@ def kmesh_of(rng, tier, rfft, nd=None):
         nk.append(k)
     dims = ["k_" + d for d in DIMSETS[nd][0]]
     units = ["(m" + KSUF] * nd
-    return dict(p1=[S(x) for x in p1], p2=[S(x) for x in p2], n=nk, dims=dims, units=units, regime="kmesh"), n, cells
+    return dict(p1=[S(x) for x in p1], p2=[S(x) for x in p2], n=nk, dims=dims, units=units, regime="kmesh",
+                seq=rng.choice(["list", "tuple", "ndarray"])), n, cells
 
 
 def gen_shape(rng, nk, n_orig, rfft):
@@ -203,17 +205,22 @@ MAPVALS = ["x", "y", "z", "k_x", "k_y", "k_z", "k_k_x", "foo", "k_", "x0"]
 
 
 def gen_names(rng):
-    nv = rng.choice([1, 2, 2, 3, 3, 4])
+    nv = rng.choice([1, 2, 2, 3, 3, 3, 4, 4])
     vd = rng.choice(VDIMS[nv])
-    cls = rng.choice(["default", "empty", "full", "full", "full"])
-    mp = None
+    cls = rng.choice(["default", "empty", "full", "full", "full", "full"])
+    items = None
     if vd is not None and len(set(vd)) == len(vd):
         if cls == "empty":
-            mp = {}
+            items = []
         elif cls == "full":
-            mp = {v: rng.choice(MAPVALS) for v in vd}
+            # pairwise distinct axes (a permuted mapping is then visible), sometimes repeated ones
+            vals = rng.sample(MAPVALS, nv) if rng.random() < 0.8 else [rng.choice(MAPVALS) for _ in vd]
+            items = [[v, d] for v, d in zip(vd, vals)]
+            # the insertion order of the dict is independent of the mapping it encodes
+            rng.shuffle(items)
     nd = rng.choice([1, 2, 3]) if rng.random() < 0.7 else nv
-    return dict(kind="names", nv=nv, vdims=vd, mapping=mp, nd=min(nd, 3) if nd != nv else nd,
+    return dict(kind="names", nv=nv, vdims=vd, mapping=items, nd=min(nd, 3) if nd != nv else nd,
+                seq=rng.choice(["list", "tuple", "ndarray"]),
                 op=rng.choice(["fftn", "rfftn", "ifftn", "irfftn"]))
 
 
@@ -268,7 +275,7 @@ def generate(rng, tier):
             cls, sh = gen_shape(rng, km["n"], None, rfft)
             cases.append(dict(kind="meshi", mesh=km, rfft=rfft, shape=sh, shape_cls=cls, n0=None, c0=None))
     # --- names
-    for _ in range(60 if q else 400):
+    for _ in range(120 if q else 800):
         cases.append(gen_names(rng))
     # --- spectra
     cap = 48 if q else 160
@@ -302,9 +309,52 @@ def generate(rng, tier):
 
 
 # ------------------------------------------------------------------ implementation side
+def as_seq(xs, kind):
+    """the same names handed over as list / tuple / numpy array"""
+    if xs is None:
+        return None
+    if kind == "tuple":
+        return tuple(xs)
+    if kind == "ndarray":
+        return np.array(list(xs))
+    return list(xs)
+
+
 def build_mesh(m):
-    region = df.Region(p1=fls(m["p1"]), p2=fls(m["p2"]), dims=m["dims"], units=m["units"])
+    kind = m.get("seq", "list")
+    region = df.Region(p1=fls(m["p1"]), p2=fls(m["p2"]), dims=as_seq(m["dims"], kind), units=as_seq(m["units"], kind))
     return df.Mesh(region=region, n=m["n"])
+
+
+def snapshot(f):
+    """everything of a source field that a transform must leave alone"""
+    return (f.array.copy(), None if f.vdims is None else list(f.vdims), dict(f.vdim_mapping),
+            list(f.vdim_mapping.items()), f.unit, [int(v) for v in f.mesh.n],
+            f.mesh.region.pmin.copy(), f.mesh.region.pmax.copy(), tuple(f.mesh.region.dims), tuple(f.mesh.region.units))
+
+
+def same_snapshot(a, b):
+    return (a[0].dtype == b[0].dtype and a[0].shape == b[0].shape and np.array_equal(a[0], b[0], equal_nan=True)
+            and a[1] == b[1] and a[2] == b[2] and a[3] == b[3] and a[4] == b[4] and a[5] == b[5]
+            and np.array_equal(a[6], b[6]) and np.array_equal(a[7], b[7]) and a[8] == b[8] and a[9] == b[9])
+
+
+def transform_twice(rec, f, op, kw=None):
+    """run a transform on f with the operand snapshot armed: the source field is untouched and can be
+    re-used (a second call gives the same result); returns (status, result)"""
+    kw = kw or {}
+    before = snapshot(f)
+    st, out = attempt(lambda: getattr(f, op)(**kw))
+    if not same_snapshot(before, snapshot(f)):
+        rec["oracle"].append("source-field-modified-by-" + op)
+    if st == "ok":
+        st2, again = attempt(lambda: getattr(f, op)(**kw))
+        if st2 != "ok" or again.array.shape != out.array.shape or \
+                not np.array_equal(again.array, out.array, equal_nan=True):
+            rec["oracle"].append("source-field-not-reusable-after-" + op)
+        if np.shares_memory(out.array, f.array):
+            rec["oracle"].append("result-aliases-the-source-array")
+    return st, out
 
 
 def mesh_obs(k):
@@ -500,14 +550,16 @@ def run_names(c, rec):
     vals = np.arange(np.prod(mesh.n) * nv, dtype=float).reshape(*mesh.n, nv)
     if op in ("ifftn",):
         vals = vals + 0j
-    st0, f = attempt(lambda: df.Field(mesh, nvdim=nv, value=vals, vdims=c["vdims"], vdim_mapping=c["mapping"]))
+    mapping = None if c["mapping"] is None else {k: v for k, v in c["mapping"]}   # insertion order as generated
+    st0, f = attempt(lambda: df.Field(mesh, nvdim=nv, value=vals, vdims=as_seq(c["vdims"], c.get("seq", "list")),
+                                      vdim_mapping=mapping))
     if st0 != "ok":
         rec.update(obs=dict(err=f, stage="constructor"), key=f"names/ctor-rejected/{nv}", size=nv)
         return rec
     vd = None if f.vdims is None else list(f.vdims)
     mp = [(v, f.vdim_mapping[v]) for v in (vd or []) if v in f.vdim_mapping]
     inverse = op in ("ifftn", "irfftn")
-    st, out = attempt(lambda: getattr(f, op)())
+    st, out = transform_twice(rec, f, op)
     if st == "ok":
         ovd = None if out.vdims is None else list(out.vdims)
         omp = [(v, out.vdim_mapping[v]) for v in (ovd or []) if v in out.vdim_mapping]
@@ -588,7 +640,9 @@ def run_fwd(c, rec):
     x = make_values(c["values"], tuple(n) + (nv,))
     real = op == "rfftn"
     f = df.Field(mesh, nvdim=nv, value=x, dtype=x.dtype)
-    st, ft = attempt(lambda: getattr(f, op)())
+    st, ft = transform_twice(rec, f, op)
+    if not np.array_equal(f.array, x):
+        rec["oracle"].append("source-field-modified-by-" + op)
     nshape = "".join("1" if v == 1 else ("e" if v % 2 == 0 else "o") for v in n)
     key = f'fwd/{op}/{nshape}/{nv}/{c["values"]["cplx"]}/{c["values"]["cls"]}/{st}'
     if st != "ok":
@@ -635,7 +689,9 @@ def run_inv(c, rec):
             kw["shape"] = tuple(n0)
         elif ws == "int":
             kw["shape"] = int(n0[0])
-    st, out = attempt(lambda: getattr(f, op)(**kw))
+    st, out = transform_twice(rec, f, op, kw)
+    if not np.array_equal(f.array, spec):
+        rec["oracle"].append("source-field-modified-by-" + op)
     nshape = "".join("1" if v == 1 else ("e" if v % 2 == 0 else "o") for v in n0)
     key = f'inv/{op}/{nshape}/{nv}/{c.get("with_shape")}/{c["values"]["cls"]}/{st}'
     if st != "ok":
@@ -681,6 +737,7 @@ def run_algebra(c, rec):
     h = df.Field(mesh, nvdim=nv, value=y, dtype=y.dtype)
     tolx = TOL * max(l1(x), 1e-300)
     toly = TOL * max(l1(y), 1e-300)
+    before_f, before_h = snapshot(f), snapshot(h)
     F1 = f.fftn()
     # round trip of the full transform
     back = F1.ifftn()
@@ -736,6 +793,10 @@ def run_algebra(c, rec):
         else:
             st, rb = attempt(lambda: R.irfftn())
             obs["odd_default"] = "rejected" if st != "ok" else [int(v) for v in rb.mesh.n]
+    # the source fields were re-used after every transform above: they must still be what they were
+    if not (same_snapshot(before_f, snapshot(f)) and same_snapshot(before_h, snapshot(h))
+            and np.array_equal(f.array, x) and np.array_equal(h.array, y)):
+        rec["oracle"].append("source-field-modified")
     nshape = "".join("1" if v == 1 else ("e" if v % 2 == 0 else "o") for v in n)
     rec.update(obs=obs, key=f"algebra/{nshape}/{nv}/{isreal}", size=sum(n) + nv)
     return rec
